@@ -49,9 +49,9 @@ CLAIMS = {
          "Go/generator side only: every load of the JIT decoder templates through (IP)(IC) is covered by a bound check since IC last moved; text handed on as (IP+s, length) has length IC-s+c ending at or before the cursor and never IC+s; every raw *(*byte) read in ast/decode.go and utils/skip.go is dominated by p < end; optdec parses a private copy with >= 64 padding bytes. Reads inside the native routines are NOT decided (byte arrays).",
          "A handler's first access may rely on IC < IL established by the preceding lspace opcode. The natives' own SIMD loads and tails are out of reach of this technique in this sandbox.",
          "DESIGN.md §4 C05"),
- "C06": ("pool typestate with alias tokens, path-sensitive over go/cfg; copy-before-retain instances; output-space budget dataflow over the emitted x86 encoder templates; input-pointer taint dataflow over the emitted x86 decoder templates (CopyString)",
+ "C06": ("pool typestate with alias tokens, path-sensitive over go/cfg; copy-before-retain instances; output-space budget dataflow over the emitted x86 encoder templates; input-pointer taint dataflow over the emitted x86 decoder templates (CopyString); audit of reference-accessor uses in optdec",
          "Static necessary-condition check: nothing is used after it was put back to a pool and no pooled backing array escapes to the caller; the []byte entry points copy before retaining; every store / native writer of the JIT encoder is covered by a reservation (check_size) since RL last advanced; in the JIT decoder templates every register that points into the input is stored or boxed only on paths that tested CopyString off. That natives honour the capacity they are told is NOT decided.",
-         "Alias summaries: append/HTMLEscape/CorrectWith/Quote results alias their first argument; runtime-sized reservations (check_size_r) are trusted to be sized correctly. The optdec half of F-15 (Node.Number slices Parser.Json regardless of CopyString) is outside the emitted templates and is documented only.",
+         "Alias summaries: append/HTMLEscape/CorrectWith/Quote results alias their first argument; runtime-sized reservations (check_size_r) are trusted to be sized correctly. A reference passed to an unknown helper is treated as a transient use (D3).",
          "DESIGN.md §3.3, §3.2 A1, §4 C06"),
  "C07": ("constant/layout relations and guard-bound agreement on emitted templates; clamp rules on the error-excerpt arithmetic; reset-at-pool-boundary rule; depth-tag rule; recursion-cycle triage over the VTA call graph (SCCs) with a structural depth-guard check",
          "Static necessary-condition check of the guards that turn hostile input into errors: stack bounds equal array sizes in every executor (encoder JIT/VM, jitdec, generic decoder), pooled stacks are reset, nesting is tagged at compile time, error excerpts are clamped for any position; every recursion cycle among sonic functions is reviewed and the input-driven ones must pass a depth guard (compare with MAX_RECURSE, return, increment) on every cycle. Faults inside generated/native code and native termination are NOT decided.",
